@@ -36,15 +36,29 @@ func (t tasks) Swap(a, b int) {
 	t[a], t[b] = t[b], t[a]
 }
 
+// Remove returns the list without task. The task is looked up by identity and a new
+// slice is built: the job lists of all height workers of one download share their backing
+// array and their taskInfo objects (Index is rewritten by whichever worker picked the peer
+// last), so shifting in place at task.Index dropped or duplicated peers in the other
+// workers' lists and could leave the failed peer in this one.
 func (t tasks) Remove(task *taskInfo) tasks {
 	task.mtx.Lock()
 	defer task.mtx.Unlock()
-	if task.Index+1 > t.Size() {
+	index := task.Index
+	for i, ti := range t {
+		if ti == task {
+			index = i
+			break
+		}
+	}
+	if index < 0 || index+1 > t.Size() {
 		return t
 	}
 
-	t = append(t[:task.Index], t[task.Index+1:]...)
-	return t
+	out := make(tasks, 0, t.Size()-1)
+	out = append(out, t[:index]...)
+	out = append(out, t[index+1:]...)
+	return out
 }
 
 func (t tasks) Sort() tasks {
